@@ -58,3 +58,308 @@ def model_obs(rec, step):
     text += "Eval vm_compute in (let '(cf, h, o) := c in nth_error (run cf h) %d%%nat).\n" % step
     rc, out = vlib.coq_run("dump_%d" % os.getpid(), text)
     return out
+
+
+# ---------------------------------------------------------------- bundles
+
+import gzip
+import hashlib
+import re
+import time
+
+from checks import oracles
+
+SIZES = {
+    "quick": {"hist": 220, "faultenum": (4, "doubles=1 max=260"), "crashenum": (8, "max=240")},
+    "thorough": {"hist": 4000, "faultenum": (40, "doubles=2 max=6000"), "crashenum": (80, "max=5000")},
+}
+
+
+def bundle(tier, seed):
+    """Traces of the three history families on the current tree plus the
+    model's disagreements, shared by the thirteen session properties (cached
+    by tree hash, harness/model hash, seed and tier)."""
+    binary, blog = vlib.build_harness()
+    if binary is None:
+        return {"harness_failed": blog[-4000:]}
+    key = vlib.file_hash([binary] + [os.path.join(vlib.COQ, "Model", f) for f in ("Base.v", "Sess.v", "Hist.v", "Corr.v")]
+                         + [os.path.join(vlib.ROOT, "checks", "hist_common.py")])
+    name = "bundle-%s-%s-%s-%d.json.gz" % (vlib.repo_hash(), key, tier, seed)
+    d = os.path.join(vlib.BUILD, "bundles")
+    os.makedirs(d, exist_ok=True)
+    path = os.path.join(d, name)
+    with vlib.lock("bundle-%s-%d" % (tier, seed)):
+        if os.path.exists(path):
+            with gzip.open(path, "rt") as f:
+                return json.load(f)
+        for old in os.listdir(d):
+            if time.time() - os.path.getmtime(os.path.join(d, old)) > 3 * 3600:
+                os.remove(os.path.join(d, old))
+        # the model must be compiled before cases can be evaluated
+        ok, out, _ = vlib.coq_build(["Model/Corr"])
+        if not ok:
+            raise vlib.Machinery("model does not compile: " + out[-3000:])
+        t0 = time.time()
+        b = {"families": {}, "diffs": {}, "timing": {}}
+        sz = SIZES[tier]
+        for fam in ("corpus", "hist", "faultenum", "crashenum"):
+            t1 = time.time()
+            if fam == "corpus":
+                # minimised regressions of the defects found so far run first
+                hs = []
+                import glob as _glob
+                for fpath in sorted(_glob.glob(os.path.join(vlib.ROOT, "corpus", "defects", "*.json"))):
+                    hs.append(json.load(open(fpath))["history"])
+                recs = rerun(binary, hs, "corpus") if hs else []
+            else:
+                n, args = (sz[fam], "") if fam == "hist" else sz[fam]
+                recs = run_family(binary, fam, seed, n, args, tag=tier)
+            b["timing"][fam + "_run_s"] = round(time.time() - t1, 1)
+            t1 = time.time()
+            diffs = model_diffs(recs, prefix=fam)
+            b["timing"][fam + "_model_s"] = round(time.time() - t1, 1)
+            for r in recs:
+                r.pop("coq", None)
+            b["families"][fam] = recs
+            b["diffs"][fam] = diffs
+        b["timing"]["total_s"] = round(time.time() - t0, 1)
+        with gzip.open(path, "wt") as f:
+            json.dump(b, f)
+        return b
+
+
+# which observation fields each property's correspondence compares
+PROJECTION = {
+    "C01": {0, 1, 2, 4, 5, 9}, "C02": {0, 1, 2, 3, 6, 8, 11}, "C03": {0, 1, 3, 6, 7, 8, 12}, "C04": {0, 1, 2, 3, 6, 9, 11},
+    "C05": {0, 1, 2, 3, 6, 7, 8, 12}, "C06": {0, 1, 3, 6, 8}, "C07": {0, 1, 3, 6, 8, 9}, "C08": {0, 1, 3, 4, 5, 7, 8},
+    "C09": {0, 4, 5, 6, 7, 8}, "C10": {0, 1, 2, 6, 8}, "C11": {0, 1, 3, 4, 6, 7, 8}, "C12": {0, 6, 7}, "C18": {0, 3, 9},
+}
+FAMILIES = {"C10": ["corpus", "crashenum"], "C11": ["corpus", "faultenum"]}
+DEFAULT_FAMILIES = ["corpus", "hist", "faultenum", "crashenum"]
+
+
+def theorem_names(prop):
+    p = os.path.join(vlib.COQ, "Properties", prop + ".v")
+    if not os.path.exists(p):
+        return None
+    text = open(p).read()
+    text = re.sub(r"\(\*.*?\*\)", "", text, flags=re.S)
+    return re.findall(r"^\s*(?:Theorem|Lemma|Corollary)\s+(\w+)", text, flags=re.M)
+
+
+def replay_record(prop, rec, finding):
+    h = rec["history"]
+    return {"property": prop, "what": finding["what"], "step": finding["step"], "signature": finding.get("signature"),
+            "history": h, "observations": rec["obs"][:finding["step"] + 1][-3:],
+            "replay": "./check %s --replay <this file>   (runs the history against /repo through harness family 'replay')" % prop}
+
+
+def eval_oracle(prop, recs):
+    """Returns list of (record index, finding)."""
+    res = []
+    f = oracles.ORACLES[prop]
+    for i, r in enumerate(recs):
+        if not r.get("obs"):
+            continue
+        for x in f(oracles.Trace(r)):
+            res.append((i, x))
+    return res
+
+
+def rerun(binary, histories, tag):
+    """Run the given histories again (as JSON) through the 'replay' family."""
+    p = os.path.join(vlib.BUILD, "replay-%s-%d.json" % (tag, os.getpid()))
+    clean = []
+    for j, h in enumerate(histories):
+        h = json.loads(json.dumps(h))
+        h["id"] = j
+        for s in h["steps"]:
+            s.pop("tb", None)
+            s.pop("present", None)
+        clean.append(h)
+    with open(p, "w") as f:
+        json.dump(clean, f)
+    try:
+        return run_family(binary, "replay", 0, len(clean), "file=" + p, tag=tag)
+    finally:
+        os.remove(p)
+
+
+def shrink(binary, prop, rec, finding, rounds=12):
+    """Delete steps (and script operations) while the oracle still reports
+    the same kind of finding."""
+    sig = finding.get("signature")
+    what0 = finding["what"].split(":")[0][:40]
+
+    def still(r):
+        if not r.get("obs"):
+            return None
+        for x in oracles.ORACLES[prop](oracles.Trace(r)):
+            if x.get("signature") == sig and x["what"].split(":")[0][:40] == what0:
+                return x
+        return None
+    cur, curf = rec, finding
+    for _ in range(rounds):
+        h = cur["history"]
+        cands = []
+        n = len(h["steps"])
+        # drop everything after the failing step, then single steps, then script ops
+        if curf["step"] + 1 < n:
+            h2 = dict(h, steps=h["steps"][:curf["step"] + 1])
+            cands.append(h2)
+        for j in range(min(n, curf["step"] + 1)):
+            cands.append(dict(h, steps=h["steps"][:j] + h["steps"][j + 1:]))
+        for j in range(min(n, curf["step"] + 1)):
+            sc = h["steps"][j].get("script") or []
+            for q in range(len(sc)):
+                st2 = dict(h["steps"][j], script=sc[:q] + sc[q + 1:])
+                cands.append(dict(h, steps=h["steps"][:j] + [st2] + h["steps"][j + 1:]))
+        if not cands:
+            break
+        out = rerun(binary, cands[:200], "shrink")
+        nxt = None
+        for r in out:
+            x = still(r)
+            if x is not None:
+                nxt = (r, x)
+                break
+        if nxt is None:
+            break
+        cur, curf = nxt
+    return cur, curf
+
+
+def run_property(chk, prop, note=None):
+    t0 = time.time()
+    thorough = chk.tier == "thorough"
+    names = theorem_names(prop)
+    proof_ok, plog = True, ""
+    if names:
+        proof_ok, plog = vlib.standard_proof_stage(chk, prop, names)
+    else:
+        chk.coverage["theorems"] = "Properties/%s.v not present: no theorem is claimed by this run" % prop
+    b = bundle(chk.tier, chk.seed)
+    if "harness_failed" in b:
+        chk.oblige("harness builds against the current tree", False)
+        chk.violation({"property": prop, "no_longer_checks": "harness build", "log": b["harness_failed"]}, no_input=True)
+        return chk.finish()
+    chk.oblige("harness builds against the current tree", True)
+    binary, _ = vlib.build_harness()
+    fams = FAMILIES.get(prop, DEFAULT_FAMILIES)
+    proj = PROJECTION[prop]
+    total_h = total_s = 0
+    counters = {}
+    child_errors = []
+    rel_diffs = []
+    findings = []
+    for fam in fams:
+        recs = b["families"][fam]
+        total_h += len(recs)
+        for r in recs:
+            total_s += len(r.get("obs") or [])
+            if r.get("error"):
+                child_errors.append((fam, r))
+            elif r.get("obs"):
+                for k, v in oracles.branch_counters(oracles.Trace(r)).items():
+                    counters[k] = counters.get(k, 0) + v
+        for (ri, step, fields) in b["diffs"][fam]:
+            if set(fields) & proj:
+                rel_diffs.append((fam, ri, step, fields))
+        for ri, x in eval_oracle(prop, recs):
+            findings.append((fam, ri, x))
+    # a child that died (deadlock, runtime crash, panic outside a call) is a failure of the real code
+    for fam, r in child_errors[:3]:
+        chk.violation({"property": prop, "what": "the real code crashed or deadlocked while executing a history", "history": r["history"],
+                       "detail": r["error"][-3000:]})
+    distinct = len({json.dumps(r["history"]["steps"], sort_keys=True) for fam in fams for r in b["families"][fam] if len(r.get("obs") or []) > 3})
+    chk.coverage.update({
+        "evaluations": total_h, "distinct_nontrivial": distinct,
+        "rule": "generated histories (families %s); non-trivial = more than three executed steps; distinct by step list" % ", ".join(fams),
+        "histories": total_h, "steps": total_s, "branch_counters": counters,
+        "model_impl_mismatches": len(rel_diffs), "projection_fields": sorted(FIELD_NAMES[f] for f in proj),
+        "oracle_evaluations_on_impl": total_h, "oracle_findings": len(findings),
+        "bundle_timing": b.get("timing"),
+        "samples": [{"cfg": r["history"]["cfg"], "steps": r["history"]["steps"][:6]} for r in b["families"][fams[1]][:2]],
+    })
+    # generator self-test: the branches this property depends on must be exercised
+    needed = {"C01": ["start:plain", "start:rotate"], "C02": ["lookup:miss", "present:forged-other"], "C03": ["start:stale", "start:plain"],
+              "C04": ["start:rotate", "op:regen:ok"], "C05": ["start:redirect"], "C06": ["start:ip-anomaly", "start:ua-anomaly"],
+              "C07": ["op:destroy:ok", "start:stale"], "C08": ["op:login:ok", "step:logoutuser", "step:refreshuser"],
+              "C09": ["op:set:ok", "step:drop"], "C10": ["res:crashed"], "C11": ["ev:save:cacheset:failed", "ev:load:failed"],
+              "C12": ["ev:save:compact", "step:purge"], "C18": ["cookie:live", "cookie:delete"]}[prop]
+    missing = [x for x in needed if not counters.get(x)]
+    if missing:
+        raise vlib.Machinery("generator self-test: branches never exercised: %s" % missing)
+    chk.oblige("model = implementation on the %s projection of %d histories / %d steps" % (prop, total_h, total_s), not rel_diffs)
+
+    reported = set()
+    nviol = 0
+    for fam, ri, x in findings:
+        rec = b["families"][fam][ri]
+        sigkey = (x.get("signature"), x["what"].split(":")[0][:40])
+        if sigkey in reported:
+            continue
+        reported.add(sigkey)
+        known = x.get("signature") and any(f.get("kind") == "known" and f.get("signature") == x["signature"] for f in chk.findings)
+        if known:
+            chk.violation(replay_record(prop, rec, x), signature=x["signature"], what=x["what"])
+            continue
+        if nviol >= 3:
+            continue
+        nviol += 1
+        try:
+            rec2, x2 = shrink(binary, prop, rec, x)
+        except vlib.Machinery:
+            rec2, x2 = rec, x
+        chk.violation(replay_record(prop, rec2, x2), signature=x2.get("signature"), what=x2["what"])
+    chk.coverage["oracle_holds_on_impl"] = nviol == 0
+
+    if nviol == 0 and rel_diffs:
+        # model and code differ on this property's projection but no oracle
+        # failure so far: spend a search budget on more histories
+        sfam = fams[1]
+        extra = run_family(binary, sfam, chk.seed + 7919, SIZES[chk.tier]["hist"] if sfam == "hist" else 10,
+                           "" if sfam == "hist" else SIZES[chk.tier][sfam][1], tag="search")
+        more = eval_oracle(prop, extra)
+        more = [(ri, x) for ri, x in more if not (x.get("signature") and any(f.get("kind") == "known" and f.get("signature") == x["signature"] for f in chk.findings))]
+        chk.coverage["search_histories"] = len(extra)
+        if more:
+            ri, x = more[0]
+            rec2, x2 = shrink(binary, prop, extra[ri], x)
+            chk.violation(replay_record(prop, rec2, x2), signature=x2.get("signature"), what=x2["what"])
+        else:
+            fam, ri, step, fields = rel_diffs[0]
+            rec = b["families"][fam][ri]
+            chk.violation({"property": prop, "no_longer_checks": "correspondence between Model/Sess.v and the implementation on the %s projection" % prop,
+                           "first_difference": {"step": step, "fields": [FIELD_NAMES[f] for f in fields]},
+                           "history": rec["history"], "observations": rec["obs"][max(0, step - 1):step + 1]}, no_input=True)
+    elif nviol == 0 and not proof_ok:
+        chk.violation({"property": prop, "no_longer_checks": "theorems of Properties/%s.v" % prop,
+                       "obligations": chk.obligations, "log": plog[-3000:]}, no_input=True)
+    return chk.finish(
+        level="proof" if names else "translation_validation",
+        trusted_base=["Python oracles (checks/oracles.py) that turn real traces into violations; they state the property on observables and are not part of any proof"],
+        extra_assumptions=[note] if note else None)
+
+
+def replay_property(chk, prop, path):
+    rep = json.load(open(path))
+    binary, blog = vlib.build_harness()
+    if binary is None:
+        print(blog[-2000:])
+        return 2
+    if "history" not in rep:
+        print(json.dumps(rep, indent=1)[:4000])
+        return 0
+    out = rerun(binary, [rep["history"]], "replay")
+    fs = eval_oracle(prop, out)
+    for ri, x in fs:
+        print("step %d: %s%s" % (x["step"], x["what"], " [%s]" % x["signature"] if x.get("signature") else ""))
+    d = model_diffs(out, prefix="replay") if out and out[0].get("coq") else []
+    for i, step, f in d:
+        print("model/implementation differ at step %d in %s" % (step, [FIELD_NAMES[z] for z in f]))
+    if fs:
+        print("VIOLATION property=%s replay=%s" % (prop, path))
+        return 1
+    print("no violation on the current tree")
+    return 0
